@@ -15,32 +15,20 @@ RULE = ('Graphs and queries as C12 (random) plus, in the thorough tier, every pr
         'a subset (numpy RNG seeded from the case); all_time_respecting_paths(start, end, min_t=m) == {(u, w): paths} over '
         'the nodes present at m. non-trivial = the enumerated set has >= 2 paths, one of them with >= 2 hops.')
 ASSUMPTIONS = ['e > t', "node ids are ints or '_'-free strings", 'windows lie inside [first id, last id]']
-BUDGET = {'quick': {'cases': 5000, 'seconds': 50}, 'thorough': {'cases': 60000, 'seconds': 560}}
+BUDGET = {'quick': {'cases': 8000, 'seconds': 50}, 'thorough': {'cases': 60000, 'seconds': 560}}
 QUERIES = st.lists(pc.QUERY, min_size=3, max_size=3)
 TRIG = 'root_selfloop_in_window'
 
 
 def strategy(tier):
-    return st.tuples(pc.graph_strategy(), QUERIES, st.integers(0, 9), st.sampled_from([0.3, 0.7])).map(
+    return st.tuples(pc.graph_strategy(tier=tier), QUERIES, st.integers(0, 9), st.sampled_from([0.3, 0.7])).map(
         lambda x: dict(x[0], q=[list(q) for q in x[1]], mt=x[2], sample=x[3]))
 
 
 def exhaustive(tier):
     if tier != 'thorough':
         return None
-
-    def cases():
-        und = [(0, 1), (0, 2), (1, 2)]
-        dr = [(0, 1), (1, 0), (0, 2), (2, 0), (1, 2), (2, 1)]
-        for bits in range(2 ** 9):
-            ops = [['add', a, b, t, None] for i, ((a, b), t) in enumerate(itertools.product(und, range(3))) if bits >> i & 1]
-            if ops:
-                yield {'cls': 'DynGraph', 'removal': True, 'nodes': [0, 1, 2], 'ops': sorted(ops, key=lambda o: o[3]), 'all_q': True}
-        for bits in range(0, 2 ** 18, 4):
-            ops = [['add', a, b, t, None] for i, ((a, b), t) in enumerate(itertools.product(dr, range(3))) if bits >> i & 1]
-            if ops:
-                yield {'cls': 'DynDiGraph', 'removal': True, 'nodes': [0, 1, 2], 'ops': sorted(ops, key=lambda o: o[3]), 'all_q': True}
-    return {'cases': cases(), 'bound': 'every undirected presence relation on 3 nodes x instants {0,1,2} without self-loops (511) and every '
+    return {'cases': pc.small_universe_cases(directed_step=4), 'bound': 'every undirected presence relation on 3 nodes x instants {0,1,2} without self-loops (511) and every '
             '4th directed one by bit index (65535), each with all roots u, v=None, and the windows [first,last], [first,first+1]'}
 
 
